@@ -196,15 +196,18 @@ def finish(prop, mod, tier, seed, total, t0, nunits, unit_times, stale):
     for f, n in known_hit.values():
         print(f'KNOWN-FINDING: property={prop} {f["what"]} [key={f["key"]}; {n} recorded cases this run]')
     reported = []
-    harness_bad = False
+    unconfirmed = []
     for n, key in enumerate(new_keys[:MAX_REPORTED]):
         v = groups[key][0]
         path = write_replay(prop, v, seed)
         if n < MAX_CONFIRM:
             status = confirm(prop, path, key)
             if status == 'nondeterministic':
-                print(f'HARNESS-ERROR replay of {path} is not reproducible in a fresh interpreter (key {key})')
-                harness_bad = True
+                # observed while exploring, but the single case does not reproduce from a fresh process: either the
+                # harness is nondeterministic, or the outcome depends on cases executed earlier in the same worker
+                # (state kept outside the objects).  Never reported as a verdict on its own.
+                print(f'UNCONFIRMED replay of {path} is not reproducible in a fresh interpreter (key {key})')
+                unconfirmed.append(key)
                 continue
         print(f'VIOLATION property={prop} replay={path}')
         print(f'  clause={v["clause"]} site={v["site"]} cases={len(groups[key])}')
@@ -228,6 +231,7 @@ def finish(prop, mod, tier, seed, total, t0, nunits, unit_times, stale):
         'distinct_outcomes': len(total.outcomes),
         'known_findings_hit': [f['key'] for f, _ in known_hit.values()],
         'violation_keys': new_keys[:MAX_REPORTED],
+        'unconfirmed_violation_keys': unconfirmed,
         'tree': repo_state(),
         'stale_extension': bool(stale),
         'slowest_units_s': sorted(unit_times)[-3:],
@@ -255,9 +259,13 @@ def finish(prop, mod, tier, seed, total, t0, nunits, unit_times, stale):
           f'states={states} transitions={total.transitions} outcomes={len(total.outcomes)} '
           f'skipped={sum(total.skipped.values())} known={len(known_hit)} violations={len(new_keys)} '
           f'wall={wall:.1f}s' + (' CAPPED' if total.capped else ''))
-    if harness_bad:
+    if reported:
+        return 1
+    if unconfirmed or new_keys:
+        # violations were observed but none could be confirmed from a fresh interpreter: harness error, not a verdict
+        print(f'HARNESS-ERROR {len(unconfirmed)} violation key(s) observed but not reproducible from a fresh interpreter')
         return 2
-    return 1 if new_keys else 0
+    return 0
 
 
 def write_replay(prop, v, seed):
